@@ -145,6 +145,16 @@ CHECKS = {
              note=BASE_NOTE + "The reclaimer's 1000-tick period is replaced by a synchronous pass (hook H3). Production geometry (100 blocks per file) is covered by the model with the generated constants, not by runs. "
              "AtLeastOnce durability of consumption (aloNotDurable) is not examined.",
              tech="Lean 4 proof (tracker algebra lemmas; counterexample by kernel evaluation) + differential correspondence on tracker tuples / reclaimer victims + oracle", ref="§6 C12"),
+ "C11": dict(text="Partial. Theorems: C11_fnv_single_byte / C11_bit_flip_detected (every corruption confined to one payload byte, in particular every bit flip, changes the FNV-1a checksum, "
+             "payloads of any length), C11_detects_or_collides (multi-byte damage: detected or a checksum collision - stated, not hidden), C11_validated_header_stays_in_buffer (a header "
+             "that passes the validation the code now performs is decoded without touching a byte outside the buffer), C11_encoder_output_is_validated (every header the engine writes passes it), "
+             "C11_guard_alone_insufficient (the meta_len guard that was the only check before the fixes admits out-of-buffer reads). Byte-level correspondence: checksum64 on 400 byte strings and "
+             "the header layout for 22 topic-name lengths read back from real WAL files. That the real engine never panics, aborts, hangs or returns a foreign payload is decided by the mutation "
+             "harness: ~700 damaged directories per quick run (5000 thorough), each opened and read dry in a fresh process.",
+             note=BASE_NOTE + "Memory safety is observed (exit status / panics of the process), not proved; rkyv's validator is trusted. One damage per directory. Full on the mutation harness only after "
+             "fixes e6ef503 (headers validated, entry size bounded by its block), fd40a0b (index and marker files validated), 5e725a7 (recovery bounded by the file length): on the pinned tree 67 of 400 "
+             "damaged directories crashed the open (panic, SIGSEGV, SIGABRT).",
+             tech="Lean 4 proof (FNV step bijectivity; position arithmetic of header decoding) + byte-level correspondence + mutation harness (oracle)", ref="§6 C11"),
 }
 NOT_APPLICABLE = {
  "C19": "statement about the vendored openraft core + QUIC transport + tokio runtime, none of which can be built or run offline here (tokio, quinn, rustls, futures absent from the registry); a free-standing Raft proof would be tied to nothing (DESIGN.md §6 C19)",
